@@ -60,14 +60,26 @@ def main():
     return worst
 
 
-if __name__ == "__main__":
+def _guarded():
+    global _RC
     try:
-        rc = main()
-    except SystemExit:
-        raise
+        _RC = main()
+    except SystemExit as e:
+        _RC = e.code if isinstance(e.code, int) else 2
     except Exception:
         import traceback
         print("ANALYSIS-ERROR internal error")
         traceback.print_exc()
-        rc = 2
-    sys.exit(rc)
+        _RC = 2
+
+
+_RC = 2
+if __name__ == "__main__":
+    import threading
+    sys.setrecursionlimit(100000)
+    threading.stack_size(512 * 1024 * 1024)
+    t = threading.Thread(target=_guarded)
+    t.start()
+    t.join()
+    sys.stdout.flush()
+    sys.exit(_RC)
